@@ -138,6 +138,13 @@ impl Gen {
                 if have < amount {
                     ops.push(Op::BankMint { addr: user.clone(), denom: sc.s.clone(), amount: amount - have });
                 }
+                if rng.chance(1, 15) {
+                    // paid in another, equally well-formed IBC voucher: not the staked asset, must be refused
+                    let foreign = format!("ibc/{}", "B".repeat(64));
+                    ops.push(Op::BankMint { addr: user.clone(), denom: foreign.clone(), amount });
+                    ops.push(Op::exec(&user, &sc.q, json!({"liquid_stake": {"mint_to": mint_to, "transfer_to_native_chain": flag, "expected_mint_amount": null}}), coin(&foreign, amount)));
+                    return ops;
+                }
                 ops.push(sc.stake(&user, amount, mint_to.as_deref(), flag, expected));
                 ops
             }
